@@ -195,7 +195,11 @@ def _ql_typeexpr_get_types(
             orig_rewrites = ctx.env.type_rewrites.copy()
             ir_set = dispatch.compile(ql_t.expr, ctx=subctx)
             stype = setgen.get_set_type(ir_set, ctx=subctx)
-            ctx.env.type_rewrites = orig_rewrites
+            # Restore in place: try_type_rewrite holds on to this
+            # dict while the policy body (which may contain a typeof)
+            # is being compiled.
+            ctx.env.type_rewrites.clear()
+            ctx.env.type_rewrites.update(orig_rewrites)
 
         return (None, True, [stype])
 
